@@ -26,7 +26,7 @@ import (
 func init() {
 	Registry["C14"] = &Check{
 		Scenarios: c14Scenarios,
-		Rule: "events: CloseNotify requested {inside the first handler, by a free application thread at every possible instant (in particular while the reader is parked in Read), twice (handler + thread), after termination}; two messages delivered in three fragments (one fragment boundary inside the first header); a Read after the local end was closed reports io.ErrClosedPipe / net.ErrClosed / the harness's own error depending on the request mode; termination by {peer EOF, transport read error, a read error that reports itself as temporary (once), EOF / read error returned by the same Read that delivers the last message (n > 0 with err != nil), undecodable header followed by trailing bytes, local Close from a free thread at every instant, a handler panic on the second message (recovered by the serve loop)}; an observer thread records the instant the channel closes. The requesting / closing / observing threads and the peer are environment threads, so every ordering of their steps against the library's steps is explored even at preemption bound 0; library preemption bound 2 (quick) / unbounded (thorough). The same request modes {handler, thread, after} x terminations {EOF, undecodable input, local Close, EOF inside a header, EOF / reset inside a body} on a multistream (in-memory SCTP) connection, where CloseNotify installs a read-error handler. Also a handler (of a message read through the switched reader) that waits on the channel while the peer ends the connection {EOF, reset}: the notifier is then the only goroutine able to observe the end. Also a local Close while the handler of a later message is busy and the notifier holds the bytes of a further message; the busy handler then panics or returns. Also a handler that ends its goroutine with runtime.Goexit (the reader unwinds without a read error and without a panic value), CloseNotify requested {in the first handler, by the application before anything arrives}. Also a local Close while an application goroutine's Write is stuck inside the transport (the peer has stopped reading). Also a connection accepted by a Server with ReadTimeout 2 s that idles into its read deadline (virtual clock), CloseNotify requested {in the handler, by a thread, not at all}. Also sm.Client with the watchdog enabled followed by a quiet peer close, preceded by 0, 1, 2 or 3 unsolicited success DWAs (in one segment or one segment each) (virtual time, horizon 12 s).",
+		Rule: "events: CloseNotify requested {inside the first handler, by a free application thread at every possible instant (in particular while the reader is parked in Read), twice (handler + thread), after termination}; two messages delivered in three fragments (one fragment boundary inside the first header); a Read after the local end was closed reports io.ErrClosedPipe / net.ErrClosed / the harness's own error depending on the request mode; termination by {peer EOF, transport read error, a read error that reports itself as temporary (once), EOF / read error returned by the same Read that delivers the last message (n > 0 with err != nil), undecodable header followed by trailing bytes, local Close from a free thread at every instant, a handler panic on the second message (recovered by the serve loop)}; an observer thread records the instant the channel closes. The requesting / closing / observing threads and the peer are environment threads, so every ordering of their steps against the library's steps is explored even at preemption bound 0; library preemption bound 2 (quick) / unbounded (thorough). The same request modes {handler, thread, after} x terminations {EOF, undecodable input, local Close, EOF inside a header, EOF / reset inside a body} on a multistream (in-memory SCTP) connection, where CloseNotify installs a read-error handler. Also a handler (of a message read through the switched reader) that waits on the channel while the peer ends the connection {EOF, reset}: the notifier is then the only goroutine able to observe the end. Also a local Close while the handler of a later message is busy and the notifier holds the bytes of a further message; the busy handler then panics or returns. Also CloseNotify active on two connections at once, one notifier holding a message while the other passes one on. Also a handler that ends its goroutine with runtime.Goexit (the reader unwinds without a read error and without a panic value), CloseNotify requested {in the first handler, by the application before anything arrives}. Also a local Close while an application goroutine's Write is stuck inside the transport (the peer has stopped reading). Also a connection accepted by a Server with ReadTimeout 2 s that idles into its read deadline (virtual clock), CloseNotify requested {in the handler, by a thread, not at all}. Also sm.Client with the watchdog enabled followed by a quiet peer close, preceded by 0, 1, 2 or 3 unsolicited success DWAs (in one segment or one segment each) (virtual time, horizon 12 s).",
 		Assume: []string{"data-race freedom between visible operations (audited separately with -race)", "io.Pipe is modelled by vsched.Pipe (Write blocks until the data is consumed or either end is closed)"},
 		QuickBudget: 100, ThoroughBudget: 1500,
 	}
@@ -90,6 +90,7 @@ func c14Scenarios(tier string) []*Scenario {
 	for _, req := range []string{"handler", "none"} {
 		out = append(out, c14HandlerLeaves(req, bound))
 	}
+	out = append(out, c14TwoConnections(bound))
 	out = append(out, c14Watchdog(bound), c14WatchdogStray(1, false, bound), c14WatchdogStray(2, true, bound), c14WatchdogStray(2, false, bound), c14WatchdogStray(3, true, bound))
 	// client handshakes that end exactly at the deadline: whatever the outcome, once the transport
 	// is closed every goroutine the library started must have exited
@@ -447,6 +448,93 @@ func c14LocalCloseBusyHandler(exit string, bound int) *Scenario {
 	}
 	return &Scenario{Name: "closenotify/local-close-while-a-handler-is-busy/" + exit, Body: body, Check: check, Bound: bound,
 		Outcome: func(s *vs.Sched) string { return fmt.Sprintf("handled=%v blockedlib=%d", c14st.handled, len(s.BlockedLib())) }}
+}
+
+// c14TwoConnections: CloseNotify is active on two connections at once. The notifier of A holds the
+// bytes of A's third message (A's reader is busy in the handler of the second) while B's notifier
+// passes B's second message on; then A's handler returns. Each connection's handlers see exactly
+// the messages its own peer sent, in order.
+var c14two struct {
+	seen    map[string][]string
+	release bool
+}
+
+func c14TwoConnections(bound int) *Scenario {
+	mk := func(host string, seq int) []byte {
+		m := diam.NewMessage(280, 0x80, 0, uint32(seq), uint32(seq), dict.Default)
+		m.NewAVP(avp.OriginHost, avp.Mbit, 0, datatype.DiameterIdentity(host))
+		b, _ := m.Serialize()
+		return b
+	}
+	body := func() {
+		st := &c14two
+		st.seen, st.release = map[string][]string{}, false
+		a, b := vnet.NewConn("A"), vnet.NewConn("B")
+		a.Pieces, b.Pieces = 1, 1
+		gate := vnet.NewConn("gate") // only an object to wait on
+		handler := func(name string) diam.HandlerFunc {
+			return func(c diam.Conn, m *diam.Message) {
+				host := "?"
+				if x, err := m.FindAVP(avp.OriginHost, 0); err == nil {
+					host = fmt.Sprint(x.Data)
+				}
+				st.seen[name] = append(st.seen[name], fmt.Sprintf("%s#%d", host, m.Header.HopByHopID))
+				switch {
+				case len(st.seen[name]) == 1:
+					c.(diam.CloseNotifier).CloseNotify()
+				case name == "A" && len(st.seen[name]) == 2:
+					vs.BlockObj("handler-busy", gate, func() bool { return st.release })
+				}
+			}
+		}
+		muxA, muxB := diam.NewServeMux(), diam.NewServeMux()
+		muxA.HandleFunc("ALL", handler("A"))
+		muxB.HandleFunc("ALL", handler("B"))
+		if _, err := diam.NewConn(a, "peerA", muxA, dict.Default); err != nil {
+			panic(err)
+		}
+		if _, err := diam.NewConn(b, "peerB", muxB, dict.Default); err != nil {
+			panic(err)
+		}
+		vs.GoNamed("peers", true, func() {
+			// a pause on the virtual clock ends when nothing else can move
+			pause := func() { vs.TimeSleep(time.Millisecond) }
+			a.Deliver(mk("a.example", 1))
+			pause()
+			a.Deliver(mk("a.example", 2))
+			pause()
+			a.Deliver(mk("a.example", 3)) // stays with A's notifier: A's reader is in the handler of #2
+			pause()
+			b.Deliver(mk("b.example", 1))
+			pause()
+			b.Deliver(mk("b.example", 2))
+			pause()
+			st.release = true
+			vs.Touch(gate, "release")
+			pause()
+			a.PeerEOF()
+			b.PeerEOF()
+		})
+	}
+	check := func(s *vs.Sched) string {
+		st := &c14two
+		var v []string
+		if got, want := fmt.Sprint(st.seen["A"]), "[DiameterIdentity{a.example},Padding:3#1 DiameterIdentity{a.example},Padding:3#2 DiameterIdentity{a.example},Padding:3#3]"; got != want {
+			v = append(v, "connection A: handlers saw "+got+", its peer sent messages 1, 2, 3 of a.example")
+		}
+		if got, want := fmt.Sprint(st.seen["B"]), "[DiameterIdentity{b.example},Padding:3#1 DiameterIdentity{b.example},Padding:3#2]"; got != want {
+			v = append(v, "connection B: handlers saw "+got+", its peer sent messages 1, 2 of b.example")
+		}
+		if p := s.Panics(); len(p) > 0 {
+			v = append(v, "panic: "+strings.Join(p, "; "))
+		}
+		if b := s.BlockedLib(); len(b) > 0 {
+			v = append(v, "library goroutines still alive after both peers hung up: "+strings.Join(b, ", "))
+		}
+		return strings.Join(v, " | ")
+	}
+	return &Scenario{Name: "closenotify/active-on-two-connections", Body: body, Check: check, Bound: bound, Horizon: 5 * time.Second,
+		Outcome: func(s *vs.Sched) string { return fmt.Sprint(c14two.seen["A"], c14two.seen["B"]) }}
 }
 
 // c14HandlerLeaves: the handler of the second message ends its goroutine with runtime.Goexit (what
